@@ -46,10 +46,26 @@ prv_open(struct prv *prv, long nrows, const char *path)
 int
 prv_close(struct prv *prv)
 {
+	/* Errors while writing the records are sticky in the stream */
+	int bad = ferror(prv->file);
+
 	/* Fix the header with the current duration */
-	fseek(prv->file, 0, SEEK_SET);
+	if (fseek(prv->file, 0, SEEK_SET) != 0)
+		bad = 1;
+
 	write_header(prv->file, prv->time, (int) prv->nrows);
-	fclose(prv->file);
+
+	if (ferror(prv->file))
+		bad = 1;
+
+	if (fclose(prv->file) != 0)
+		bad = 1;
+
+	if (bad) {
+		err("error writing the PRV file:");
+		return -1;
+	}
+
 	return 0;
 }
 
